@@ -200,8 +200,12 @@ claimed["C08"] = (
     "back and destroyed (and every look at a value that is already gone); on every explored history (all 16 storages, "
     "every insertion / removal / drain / entry / clear / deletion / maintain / lazy / join-with-drain path, ending with "
     "the world dropped) constructed = handed back + destroyed as multisets, nothing is looked at after it is gone, and "
-    "the values destroyed by each operation equal the specification's. Partial: the whole-history conservation law is "
-    "evaluated per history by the check, not yet proved as one theorem over all histories; destructor panics are C19.",
+    "the values destroyed by each operation equal the specification's. The ledger equation itself is proved operation by "
+    "operation (insert, remove, get_mut with in-place change, drain, deletion of entities): the values held afterwards, "
+    "handed back and destroyed are, as multisets, the values held before plus those moved in, for every kind without "
+    "default-filled gaps and both wrappers. Partial: the composition of these equations over whole histories (and "
+    "DefaultVecStorage's gap values, entry API, clear as one equation) is evaluated per history by the check, not "
+    "proved as one theorem; destructor panics are C19.",
     "5.C08")
 claimed["C20"] = (
     "The models are Gallina functions of the history, so whatever they compute depends on nothing else; the theorems "
